@@ -269,12 +269,12 @@ def fastTg (shape : List Nat) (pos : List (Int × Int)) (p : List Int) : List Na
   | [y, x] => pos.map fun d => ravelI shape (clampPos shape [y + d.1, x + d.2])
   | _ => []
 
-theorem fastDilate_unfold (Ny Nx : Nat) (data : Array Int) (By Bx : Nat) (bc : Array Int) :
-    fastDilate ⟨[Ny, Nx], data⟩ [By, Bx] bc =
+theorem fastDilate_unfold (Ny Nx : Nat) (data : Array Int) (bshape : List Nat) (bc : Array Int) :
+    fastDilate ⟨[Ny, Nx], data⟩ bshape bc =
       (allPos [Ny, Nx]).foldl (fun out p =>
         if ((Img.mk [Ny, Nx] data).getD p 0 == 0) = true then out
-        else (fastTg [Ny, Nx] (fastPositions Nx [By, Bx] bc true) p).foldl (fun out j => out.setIfInBounds j 1) out)
-      (if centreSet [By, Bx] bc = true then data else Array.replicate (shapeSize [Ny, Nx]) 0) := by
+        else (fastTg [Ny, Nx] (fastPositions Nx bshape bc true) p).foldl (fun out j => out.setIfInBounds j 1) out)
+      (if centreSet bshape bc = true then data else Array.replicate (shapeSize [Ny, Nx]) 0) := by
   simp only [fastDilate, Img.size]
   congr 1
   funext out p
@@ -286,6 +286,25 @@ theorem fastDilate_unfold (Ny Nx : Nat) (data : Array Int) (By Bx : Nat) (bc : A
     | [] => rfl
     | [_] => rfl
     | _ :: _ :: _ :: _ => rfl
+
+/-- a cell of the fast dilation branch (pointwise form): 1 if some non-zero pixel scatters onto it through
+    an offset of the list, else the initial value (copy of the input, or 0) -/
+theorem fastDilate_getD (Ny Nx : Nat) (data : Array Int) (bshape : List Nat) (bc : Array Int)
+    (hdata : data.size = shapeSize [Ny, Nx]) (i : Nat) (hi : i < shapeSize [Ny, Nx]) :
+    (fastDilate ⟨[Ny, Nx], data⟩ bshape bc).size = shapeSize [Ny, Nx] ∧
+    (fastDilate ⟨[Ny, Nx], data⟩ bshape bc).getD i 0 =
+      if (∃ p ∈ allPos [Ny, Nx], ((Img.mk [Ny, Nx] data).getD p 0 == 0) = false ∧
+            i ∈ fastTg [Ny, Nx] (fastPositions Nx bshape bc true) p) then 1
+      else (if centreSet bshape bc = true then data else Array.replicate (shapeSize [Ny, Nx]) 0).getD i 0 := by
+  have hinit_sz : (if centreSet bshape bc = true then data else Array.replicate (shapeSize [Ny, Nx]) 0).size =
+      shapeSize [Ny, Nx] := by
+    split
+    · exact hdata
+    · simp
+  obtain ⟨h1, h2⟩ := fold_set1_outer (fun p => (Img.mk [Ny, Nx] data).getD p 0 == 0)
+    (fastTg [Ny, Nx] (fastPositions Nx bshape bc true)) (allPos [Ny, Nx]) _ i (by rw [hinit_sz]; exact hi)
+  rw [← fastDilate_unfold] at h1 h2
+  exact ⟨by rw [h1, hinit_sz], h2⟩
 
 theorem scatCands_bool (A : Img Int) (sup : List (List Int × Int)) (hB : ∀ kh ∈ sup, kh.2 ≠ 0)
     (i : Nat) (x : Int) (hx : x ∈ scatCands dtBool A sup i) : x = 1 := by
